@@ -73,7 +73,8 @@ def gen_outline(rng):
         steps.append(st)
     tags = []
     for _ in range(rng.randint(0, 3)):
-        tags.append(rng.choice(["plain", "t.<%s>" % tagcol, "<%s>" % tagcol, "w-<%s>-z" % tagcol, "k=v"]))
+        tags.append(rng.choice(["plain", "t.<%s>" % tagcol, "<%s>" % tagcol, "w-<%s>-z" % tagcol, "k=v",
+                                "r<row.index>", "x<examples.index>", "id.<row.id>"]))
     examples = []
     for ei in range(rng.randint(0, 3)):
         order = cols[:]
@@ -115,6 +116,8 @@ def expected_rows(outline, schema, row_lines):
             tags = []
             for t in outline["tags"]:
                 t2 = subst(t, h, row)
+                # the documented special placeholders are rendered in tags too
+                t2 = t2.replace("<row.index>", str(ri + 1)).replace("<examples.index>", str(ei + 1)).replace("<row.id>", rid)
                 tags.append(t2)
             tags.extend(ex["tags"])
             steps = []
